@@ -29,6 +29,7 @@ RULE = (
     "nodes of those classes (two visitor subclasses used alternately on the same trees); show() with each flag combination "
     "prints one line per reachable node. Non-trivial: (a) instances with >= 1 absent optional child (distinct by construction); "
     "(b) ASTs with >= 15 node classes (distinct by hash of the source)." + RULE_EXTRA
+    + " A quarter of the generated programs get a backslash appended to some pragma lines (class pragma_line_ending_in_backslash)."
 )
 ASSUMPTIONS = [
     "show() line count is not asserted for ASTs containing node-valued attributes (Decl.align with _Alignas, Pragma.string of _Pragma): known finding F29",
@@ -386,13 +387,25 @@ def random_shard(arg):
         g = gen.G(c, quarantine=())
         tu = M.freshen(gen.gen_unit(g))
         src = unit_text(tu, "min")
+        chosen_sets = [set(c.subset(allnames, 0.2)) or {"ID"}, set(c.subset(allnames, 0.5))]
+        case = ("unit", tu, [sorted(s) for s in chosen_sets])
+        if c.chance(0.25):
+            # pragma lines that end in a backslash (whatever the parser makes of
+            # them, the tree it returns has to obey the traversal rules)
+            lines = src.split("\n")
+            idx = [i for i, l in enumerate(lines) if l.lstrip().startswith("#") and "pragma" in l]
+            if idx:
+                for i in c.subset(idx, 0.6) or idx[:1]:
+                    lines[i] += c.choice([" \\", "\\", " \\ "])
+                src = "\n".join(lines)
+                case = ("text", src, case[2])
+                st.classes["pragma_line_ending_in_backslash"] += 1
         out = parse_outcome(src, "f.c", ("f.c",))
         st.evaluations += 1
         if out[0] != "ast":
             st.classes["rejected"] += 1
             return
-        chosen_sets = [set(c.subset(allnames, 0.2)) or {"ID"}, set(c.subset(allnames, 0.5))]
-        ncls = check_traversal(out[1], src, chosen_sets, ("unit", tu, [sorted(s) for s in chosen_sets]), st)
+        ncls = check_traversal(out[1], src, chosen_sets, case, st)
         if ncls >= 15:
             st.nt(src)
         st.classes["asts"] += 1
